@@ -557,9 +557,24 @@ def gen_reconnect(rng, knobs=None):
             prog.append(['advance', 2 * life + period + 5 if life < 5000 else 50])
             prog.append(['settle'])
         if who == 'app':
-            prog.append(['reconnect'])
-            if rng.random() < 0.3:
+            if rng.random() < 0.45:
+                # the application keeps issuing requests while the reconnect is under way: after k loop callbacks of it
+                prog.append(['reconnect', rng.choice([0, 1, 2, 3, 5, 7, 8, 9, 10, 11, 12, 13, 14, 16, 20])])
+                for _ in range(rng.randint(1, 2)):
+                    kind = rng.choice(['rr', 'rr', 'stream', 'fnf'])
+                    sp = spec(rng, big=False)
+                    if kind == 'rr':
+                        prog.append(['rr', 'c', sp, {'mode': 'immediate', 'resp': spec(rng, big=False)}])
+                    elif kind == 'fnf':
+                        prog.append(['fnf', 'c', sp])
+                    else:
+                        prog.append(['stream', 'c', sp, 3, {'src': 'generator', 'items': items(rng, 2, big=False), 'complete_on_last': True}, True])
+                    if rng.random() < 0.5:
+                        prog.append(['step', rng.choice([1, 2, 3])])
+            else:
                 prog.append(['reconnect'])
+                if rng.random() < 0.3:
+                    prog.append(['reconnect'])
         prog.append(['pump'])
         prog.append(['advance', period + 10])
         prog.append(['pump'])
